@@ -447,11 +447,11 @@ theorem nbytes_eq_byteLen (n : Nat) : nbytes n = Spec.Script.byteLen n := by
 
 open Model.Script in
 theorem recodeOp_eq_coerce (o : RawOp) (hw : o.wf) :
-    Model.Addr.recodeOp o = coerceInstance (cookTok o) := by
+    coerceInstance (cookTok o) = (Model.Addr.recodeOp o).map some := by
   obtain ⟨h256, hd⟩ := hw
   unfold Model.Addr.recodeOp cookTok
   by_cases h0 : o.opcode = 0
-  · simp [h0, coerceInstance, encodeOpN]
+  · simp [h0, coerceInstance, encodeOpN, Except.map]
   · simp only [h0, if_false]
     rcases hdd : o.data with _ | d
     · have hgt : ¬ o.opcode ≤ 0x4e := by
@@ -461,28 +461,43 @@ theorem recodeOp_eq_coerce (o : RawOp) (hw : o.wf) :
       · simp only [hs, and_self, if_true, coerceInstance]
         have h1 : (0 : Int) ≤ ((o.opcode - 0x50 : Nat) : Int) ∧ ((o.opcode - 0x50 : Nat) : Int) ≤ 16 := by omega
         have h2 : ¬ ((o.opcode - 0x50 : Nat) : Int) = 0 := by omega
-        simp only [h1, and_self, if_true, encodeOpN, not_true_eq_false, if_false, h2]
-        congr 2
+        simp only [h1, and_self, if_true, encodeOpN, not_true_eq_false, if_false, h2, Except.map]
+        congr 3
         have e : (81 + (((o.opcode - 80 : Nat) : Int)).toNat - 1) = o.opcode := by simp; omega
         rw [e]
-      · simp only [hs, if_false, coerceInstance, h256, if_true]
+      · simp only [hs, if_false, coerceInstance, h256, if_true, Except.map]
     · simp only [coerceInstance]
       rfl
 
 open Model.Script in
-theorem recode_build (ops : List RawOp) (hw : ∀ o ∈ ops, o.wf) :
-    (ops.mapM Model.Addr.recodeOp).map List.flatten = build (ops.map cookTok) := by
+theorem joinBytes_somes (l : List Bytes) : joinBytes (l.map some) = .ok l.flatten := by
+  induction l with
+  | nil => rfl
+  | cons a r ih => simp [joinBytes, ih]
+
+open Model.Script in
+theorem coerceAll_recode (ops : List RawOp) (hw : ∀ o ∈ ops, o.wf) :
+    coerceAll (ops.map cookTok) = (ops.mapM Model.Addr.recodeOp).map (fun l => l.map some) := by
   induction ops with
   | nil => rfl
   | cons o r ih =>
     have ih' := ih (fun x hx => hw x (by simp [hx]))
-    rw [List.mapM_cons, List.map_cons, build, ← recodeOp_eq_coerce o (hw o (by simp)), ← ih']
+    rw [List.mapM_cons, List.map_cons, coerceAll, recodeOp_eq_coerce o (hw o (by simp)), ih']
     cases Model.Addr.recodeOp o with
     | error e => rfl
     | ok a =>
       cases r.mapM Model.Addr.recodeOp with
       | error e => rfl
       | ok bs => rfl
+
+open Model.Script in
+theorem recode_build (ops : List RawOp) (hw : ∀ o ∈ ops, o.wf) :
+    (ops.mapM Model.Addr.recodeOp).map List.flatten = build (ops.map cookTok) := by
+  unfold build
+  rw [coerceAll_recode ops hw]
+  cases ops.mapM Model.Addr.recodeOp with
+  | error e => rfl
+  | ok l => simp [Except.map, joinBytes_somes]
 
 open Model.Script in
 /-- `CScript(tuple(scriptPubKey))` of C12 is cooked iteration followed by the builder of C08 -/
